@@ -86,6 +86,14 @@ func (c *Ctx) panicDischargers(r *Report, reach map[*ssa.Function]bool) []panicD
 			}
 			isNTtop := s.fn == pr.ShouldShift && s.kind == "idx" && strings.HasSuffix(s.key, "."+pr.NTF.Name()+"[(len($0."+pr.NTF.Name()+") - 1)]")
 			isDrop := s.kind == "slice" && isDropHelper(s.fn)
+			if !isDrop && s.kind == "slice" && strings.HasPrefix(s.key, "$1[:(len($1) - ") {
+				// the same slicing written out in a reducer (RED-BAL ties the count to the tokens the window holds)
+				for _, red := range c.prodTable().Reducers {
+					if red == s.fn {
+						isDrop = true
+					}
+				}
+			}
 			if !isNTtop && !isDrop {
 				return "", false
 			}
